@@ -237,6 +237,20 @@ def work(unit):
             check_pair(m, e, full_int, ssum, "array_contract", bad)
         except Exception as ex:
             bad.append(("array_contract:raises", repr(ex)))
+        if n >= 3 and inds:
+            # a SLICED tree handed to the interface as ``optimize``
+            try:
+                tr = nets.build_tree(inputs, output, sd,
+                                     next(iter(U.all_trees(range(n)))))
+                tr.remove_ind_(inds[0])
+                m, e = ctg.array_contract(arrays, inputs, output,
+                                          optimize=tr, strip_exponent=True,
+                                          cache_expression=False)
+                check_pair(m, e, full_int, ssum,
+                           "array_contract[optimize=sliced tree]", bad)
+            except Exception as ex:
+                bad.append(("array_contract[optimize=sliced tree]:raises",
+                            repr(ex)))
         for t, b, s in zip(inputs, base, scales):
             # single-tensor expressions: identity / transpose / reduction
             outs = [t, t[::-1], t[:1], ()]
